@@ -38,6 +38,7 @@ type c04Case struct {
 	Addrs     string // one | live-dead | dead-live
 	Baseline  string // synced | set-latest
 	MaxAsync  int    // >0: MaxAsyncConcurrency of the subscriber (announced cases)
+	RetryBare bool   // the retry names the publisher only (no address): the one the failed sync was given is still known
 }
 
 func (k c04Case) String() string {
@@ -45,7 +46,7 @@ func (k c04Case) String() string {
 	for _, f := range k.Faults {
 		fs = append(fs, fmt.Sprintf("%s@%d", f.Kind, f.At))
 	}
-	return fmt.Sprintf("faults=[%s] announced=%v seg=%d mount=%s addrs=%s baseline=%s max-async=%d", strings.Join(fs, ","), k.Announced, k.Seg, k.Mount, k.Addrs, k.Baseline, k.MaxAsync)
+	return fmt.Sprintf("faults=[%s] announced=%v seg=%d mount=%s addrs=%s baseline=%s max-async=%d retry-without-address=%v", strings.Join(fs, ","), k.Announced, k.Seg, k.Mount, k.Addrs, k.Baseline, k.MaxAsync, k.RetryBare)
 }
 
 // classification key used for known findings
@@ -249,6 +250,7 @@ func runC04(c *vf.Ctx) {
 		if k.Mount == MountStream {
 			k.Addrs = "one" // (a libp2p peer is dialled as a whole; there is no per-address failover to script)
 		}
+		k.RetryBare = k.Addrs == "one" && r.Intn(4) == 0
 		nf := 1
 		if r.Intn(4) == 0 {
 			nf = 2
@@ -486,8 +488,16 @@ func c04One(c *vf.Ctx, sub string, i int, env *c04Env, k c04Case) {
 		front.Pub.SetRoot(base)
 		if k.Baseline == "synced" {
 			o := ru.syncOnce(front, base, false)
+			// (the baseline is a precondition of the case, not a clause of the property: no fault has been injected yet.
+			// On a heavily loaded machine the libp2p connection of the very first sync can time out; it is tried
+			// again, and a baseline that cannot be established leaves the case undecided)
+			for try := 0; try < 3 && (o.err != nil || !o.latest.Equals(base)); try++ {
+				c.Inc("baseline_sync_retries")
+				time.Sleep([]time.Duration{100 * time.Millisecond, 500 * time.Millisecond, 2 * time.Second}[try])
+				o = ru.syncOnce(front, base, false)
+			}
 			if o.err != nil || !o.latest.Equals(base) {
-				c.Fail(sub, i, "baseline-sync-failed:"+k.classKey(), fmt.Sprint(o.err), wit())
+				c.Inconclusive(sub, i, "baseline-sync-failed:"+k.classKey(), fmt.Sprint(o.err), wit())
 				return
 			}
 			phases = append(phases, "baseline synced")
@@ -575,6 +585,10 @@ func c04One(c *vf.Ctx, sub string, i int, env *c04Env, k c04Case) {
 			}
 		}
 		// ---- phase 2: the publisher answers correctly again; same head ----------------------
+		if failed && k.RetryBare {
+			ru.pi.Addrs = nil
+			c.Inc("retries_naming_the_publisher_only")
+		}
 		if failed && k.Announced {
 			// the same CID may be announced again and is acted on
 			reann = ru.syncOnce(front, head, false)
